@@ -130,11 +130,22 @@ class Ctx:
         from pkgcore.ebuild import processor
 
         if self.ebp is None:
-            null = os.open(os.devnull, os.O_RDWR)
-            try:
-                self.ebp = processor.EbuildProcessor(False, False, fd_pipes={1: null, 2: null})
-            finally:
-                os.close(null)
+            # the constructor's handshake has no timeout of its own (a daemon that is killed from outside in the
+            # middle of die() makes chuck_DyingInterrupt read EOF forever): bound it, retry once
+            for attempt in (0, 1):
+                null = os.open(os.devnull, os.O_RDWR)
+                old = signal.signal(signal.SIGALRM, _alarm)
+                signal.setitimer(signal.ITIMER_REAL, TIMEOUT)
+                try:
+                    self.ebp = processor.EbuildProcessor(False, False, fd_pipes={1: null, 2: null})
+                    break
+                except (_Timeout, processor.ProcessingInterruption, processor.ProcessorError):
+                    if attempt:
+                        raise RuntimeError("could not spawn an ebuild daemon (engine/environment error)")
+                finally:
+                    signal.setitimer(signal.ITIMER_REAL, 0)
+                    signal.signal(signal.SIGALRM, old)
+                    os.close(null)
             processor.active_ebp_list.append(self.ebp)  # so pkgcore's own SIGTERM/atexit handlers reap it
             self.spawns += 1
         return self.ebp
